@@ -10,7 +10,7 @@ fail=0
 for d in seeded/*/; do
   id=$(basename "$d")
   [ -n "$F" ] && [[ "$id" != *"$F"* ]] && continue
-  git -C /repo apply "$d/patch.diff" 2>/dev/null || { echo "$id: patch does not apply to /repo HEAD (skipped)"; continue; }
+  git -C /repo apply "$PWD/$d/patch.diff" 2>/dev/null || { echo "$id: patch does not apply to /repo HEAD (skipped)"; continue; }
   res=""
   while read -r chk tier; do
     t=quick; case "$tier" in thorough*) t=thorough;; esac
